@@ -294,6 +294,20 @@ def r2_iter(prog, run):
               "the search for the unit's end starts at %s, not at the unit's start %s: a start code beginning at the unit's first position is missed, so an empty unit (two adjacent start codes) swallows the bytes of the following start code" % (sym.show(s2)[:120], sym.show(start)[:80]), mir.loc_of(t2))
     cur = [st for st in mir.Stores(mir.Graph(u)).sites[name] if st[3].startswith("assign") and st[2][1] == ("cursor",) and st[4].get("k") == "assign"]
     good = len(cur) == 1 and sym.expr_rv(b, cur[0][4]["rv"]) == end
+    # the scan starts at the first byte of the frame: the constructor stores the frame itself and a zero cursor
+    ctors = [k for k in u.bodies if mir.norm(k) == "codec::common::AnnexBNalIter::new" and not u.bodies[k]["in_test_cfg"]]
+    if len(ctors) == 1:
+        cv = sym.expr_local(u.bodies[ctors[0]], 0)
+        fields = dict(zip(cv[2], cv[3])) if cv[0] == "agg" else {}
+        c0 = fields.get("cursor")
+        d0 = fields.get("data")
+        while d0 is not None and d0[0] in ("ref",):
+            d0 = d0[1]
+        run.check(c0 is not None and c0[:2] == ("const", 0) and d0 is not None and (d0[0] == "arg" or (d0[0] in ("refplace", "load") and str(d0[1]).startswith("arg1"))), "R2", "iterator starts at byte 0",
+                  "new(data) = { data, cursor: 0 }", "AnnexBNalIter::new does not start the scan at the first byte of the frame it is given (cursor = %s): a start code at the beginning of the frame is missed" % (sym.show(c0) if c0 else "?"),
+                  mir.loc_of(u.bodies[ctors[0]]))
+    else:
+        run.bad("R2", "iterator starts at byte 0", "constructor AnnexBNalIter::new not found (fail closed)")
     run.check(good, "R2", "iterator cursor := unit end", "units are yielded in order without gap or overlap", "the cursor is not moved to the end of the yielded unit", mir.loc_of(cur[0][4]) if cur else mir.loc_of(b))
 
 
